@@ -1,10 +1,13 @@
 //! Harness for the streaming-SSR property C07.  `h_stream c07` reads cases on stdin
 //! (one sexp per line) and prints one observation per line.
 //!
-//! case   = (0 ooo drive tree init sched)
-//!   ooo   : 0 = in-order stream, 1 = out-of-order stream
+//! case   = (0 mode drive tree init sched)
+//!   mode  : bit 0: 0 = in-order stream, 1 = out-of-order stream; bit 1 (+2): the `_branching`
+//!           entry point (mark_branches = true); bit 2 (+4): a nonce is provided (leptos `Nonce`
+//!           context / the `nonce` argument of push_async_out_of_order_with_nonce), logged as (12 bytes)
 //!   drive : 0 = follow the schedule literally, then complete what is left and poll to the end
 //!           1 = behave like an executor: poll only after a wake-up (Poll events ignored)
+//!           2 = like 1, but every poll brings a new waker and only the newest one is live
 //!   tree  : view (see `Node`)
 //!   init  : futures already complete when the view is rendered
 //!   sched : events  (0 f) = complete future f,  (1) = poll the stream once
@@ -78,10 +81,10 @@ enum Node {
     Opt(Option<Box<Node>>),
     /// 10: the real leptos `<ErrorBoundary>` around the child (never any error)
     ErrB(Box<Node>),
-    /// 11: the real leptos `<Suspense fallback>` around the child
-    Suspense(Box<Node>, Box<Node>),
-    /// 12: the real leptos `<Transition fallback>` around the child
-    Transition(Box<Node>, Box<Node>),
+    /// 11: the real leptos `<Suspense fallback>` around the child; flag: no `fallback` prop at all
+    Suspense(Box<Node>, Box<Node>, bool),
+    /// 12: the real leptos `<Transition fallback>` around the child; flag: with `set_pending`
+    Transition(Box<Node>, Box<Node>, bool),
     /// 13: `move || res.get().map(|_| child)`: a synchronous read of the resource
     /// (`ArcAsyncDerived`) that loads when future f completes; the child has no futures
     Res(u32, Box<Node>),
@@ -100,6 +103,26 @@ enum Node {
     TextRep(u8, String),
     /// 27: element whose children are added by chained `.child(a).child(b)…` calls (2..=4)
     ElemN(usize, Vec<Node>),
+    /// 17: `move || child` (a `ReactiveFunction`: called again for dry_resolve / resolve / render;
+    /// the futures below it are `Shared`)
+    Closure(Box<Node>),
+    /// 18: leptos `Unsuspend::new(move || child)`
+    Unsuspend(Box<Node>),
+    /// 19: a leptos_server `Resource<String>` used as a view: loads the text when f completes
+    ResView(u32, String),
+    /// 20: leptos `<Await future=f blocking children=|_| child/>`
+    Await(u32, bool, Box<Node>),
+    /// 21: element with an `id` attribute (when the label is not empty) and/or raw-text content:
+    /// tag 0 div, 1 textarea, 2 style, 3 span
+    Rich(u8, String, Box<Node>),
+    /// 22: void element: 0 br, 1 input, 2 hr
+    Void(u8),
+    /// 23: `div().inner_html(raw)`
+    InnerHtml(String),
+    /// 24: `child.add_any_attr(data-k="v")` on the erased view (`AnyViewWithAttrs`: extra_attrs)
+    WithAttr(Box<Node>),
+    /// 25: `Suspend::new(async { f.await; span().child(child) }).add_any_attr(data-j="v")` (typed)
+    SuspendAttr(u32, Box<Node>),
 }
 
 fn parse(s: &Sexp) -> Node {
@@ -121,8 +144,25 @@ fn parse(s: &Sexp) -> Node {
         8 => Node::VecOf(s.list()[1..].iter().map(parse).collect()),
         9 => Node::Opt(s.list().get(1).map(|n| Box::new(parse(n)))),
         10 => Node::ErrB(Box::new(parse(s.at(1)))),
-        11 => Node::Suspense(Box::new(parse(s.at(1))), Box::new(parse(s.at(2)))),
-        12 => Node::Transition(Box::new(parse(s.at(1))), Box::new(parse(s.at(2)))),
+        11 => Node::Suspense(
+            Box::new(parse(s.at(1))),
+            Box::new(parse(s.at(2))),
+            s.list().get(3).map(|x| x.num() != 0).unwrap_or(false),
+        ),
+        12 => Node::Transition(
+            Box::new(parse(s.at(1))),
+            Box::new(parse(s.at(2))),
+            s.list().get(3).map(|x| x.num() != 0).unwrap_or(false),
+        ),
+        17 => Node::Closure(Box::new(parse(s.at(1)))),
+        18 => Node::Unsuspend(Box::new(parse(s.at(1)))),
+        19 => Node::ResView(s.at(1).num() as u32, s.at(2).string().unwrap_or_default()),
+        20 => Node::Await(s.at(1).num() as u32, s.at(2).num() != 0, Box::new(parse(s.at(3)))),
+        21 => Node::Rich(s.at(1).num() as u8, s.at(2).string().unwrap_or_default(), Box::new(parse(s.at(3)))),
+        22 => Node::Void(s.at(1).num() as u8),
+        23 => Node::InnerHtml(s.at(1).string().unwrap_or_default()),
+        24 => Node::WithAttr(Box::new(parse(s.at(1)))),
+        25 => Node::SuspendAttr(s.at(1).num() as u32, Box::new(parse(s.at(2)))),
         13 => Node::Res(s.at(1).num() as u32, Box::new(parse(s.at(2)))),
         14 => Node::LocalSuspend {
             f: s.at(1).num() as u32,
@@ -138,71 +178,138 @@ fn parse(s: &Sexp) -> Node {
     }
 }
 
-fn futures_of(n: &Node, out: &mut Vec<u32>) {
+/// direct sub-views
+fn kids(n: &Node) -> Vec<&Node> {
     match n {
-        Node::Text(_) | Node::RawSync(_) | Node::TextRep(..) => {}
-        Node::Elem(_, c) | Node::Append(c) | Node::ErrB(c) | Node::Wrap(_, c) => futures_of(c, out),
-        Node::Suspense(a, b) | Node::Transition(a, b) => {
-            futures_of(a, out);
-            futures_of(b, out)
+        Node::Text(_) | Node::RawSync(_) | Node::TextRep(..) | Node::ResView(..) | Node::Void(_) | Node::InnerHtml(_) => {
+            vec![]
         }
-        Node::Tuple(cs) | Node::VecOf(cs) | Node::Seq(_, cs) | Node::ElemN(_, cs) => {
-            cs.iter().for_each(|c| futures_of(c, out))
-        }
-        Node::Suspend(f, c) | Node::RawAsync(f, c) | Node::Res(f, c) => {
-            out.push(*f);
-            futures_of(c, out)
-        }
-        Node::LocalSuspend { f, content, .. } => {
-            out.push(*f);
-            futures_of(content, out)
-        }
-        Node::Boundary { f, fallback, content, .. } => {
-            out.push(*f);
-            futures_of(fallback, out);
-            futures_of(content, out)
-        }
-        Node::Opt(c) => {
-            if let Some(c) = c {
-                futures_of(c, out)
-            }
+        Node::Elem(_, c)
+        | Node::Append(c)
+        | Node::ErrB(c)
+        | Node::Wrap(_, c)
+        | Node::Suspend(_, c)
+        | Node::RawAsync(_, c)
+        | Node::Res(_, c)
+        | Node::Closure(c)
+        | Node::Unsuspend(c)
+        | Node::Await(_, _, c)
+        | Node::Rich(_, _, c)
+        | Node::WithAttr(c)
+        | Node::SuspendAttr(_, c) => vec![c],
+        Node::LocalSuspend { content, .. } => vec![content],
+        Node::Suspense(a, b, _) | Node::Transition(a, b, _) => vec![a, b],
+        Node::Boundary { fallback, content, .. } => vec![fallback, content],
+        Node::Tuple(cs) | Node::VecOf(cs) | Node::Seq(_, cs) | Node::ElemN(_, cs) => cs.iter().collect(),
+        Node::Opt(c) => c.iter().map(|c| &**c).collect(),
+    }
+}
+
+fn own_future(n: &Node) -> Option<u32> {
+    match n {
+        Node::Suspend(f, _)
+        | Node::RawAsync(f, _)
+        | Node::Res(f, _)
+        | Node::ResView(f, _)
+        | Node::Await(f, _, _)
+        | Node::SuspendAttr(f, _) => Some(*f),
+        Node::LocalSuspend { f, .. } | Node::Boundary { f, .. } => Some(*f),
+        _ => None,
+    }
+}
+
+fn futures_of(n: &Node, out: &mut Vec<u32>) {
+    if let Some(f) = own_future(n) {
+        out.push(f);
+    }
+    for c in kids(n) {
+        futures_of(c, out)
+    }
+}
+
+/// futures that are awaited by more than one future object (views below a closure are built
+/// again for every call; resources): `Shared`
+fn shared_futures(n: &Node, under_closure: bool, out: &mut Vec<u32>) {
+    let shared = under_closure || matches!(n, Node::ResView(..) | Node::Await(..));
+    if shared {
+        if let Some(f) = own_future(n) {
+            out.push(f);
         }
     }
+    let below = under_closure || matches!(n, Node::Closure(_));
+    for c in kids(n) {
+        shared_futures(c, below, out)
+    }
+}
+
+fn is_leptos_node(n: &Node) -> bool {
+    matches!(
+        n,
+        Node::ErrB(_)
+            | Node::Suspense(..)
+            | Node::Transition(..)
+            | Node::Res(..)
+            | Node::LocalSuspend { .. }
+            | Node::Closure(_)
+            | Node::Unsuspend(_)
+            | Node::ResView(..)
+            | Node::Await(..)
+    )
 }
 
 fn has_leptos(n: &Node) -> bool {
-    match n {
-        Node::ErrB(_) | Node::Suspense(..) | Node::Transition(..) | Node::Res(..) => true,
-        Node::LocalSuspend { .. } => true,
-        Node::Text(_) | Node::RawSync(_) | Node::TextRep(..) => false,
-        Node::Elem(_, c) | Node::Suspend(_, c) | Node::Append(c) | Node::RawAsync(_, c) | Node::Wrap(_, c) => {
-            has_leptos(c)
-        }
-        Node::Tuple(cs) | Node::VecOf(cs) | Node::Seq(_, cs) | Node::ElemN(_, cs) => cs.iter().any(has_leptos),
-        Node::Boundary { fallback, content, .. } => has_leptos(fallback) || has_leptos(content),
-        Node::Opt(c) => c.as_ref().map(|c| has_leptos(c)).unwrap_or(false),
-    }
+    is_leptos_node(n) || kids(n).into_iter().any(has_leptos)
 }
 
 fn has_raw(n: &Node) -> bool {
-    match n {
-        Node::Text(_) | Node::TextRep(..) => false,
-        Node::RawSync(_) | Node::RawAsync(..) | Node::Boundary { .. } | Node::Append(_) => true,
-        Node::ErrB(_) | Node::Suspense(..) | Node::Transition(..) | Node::Res(..) => true,
-        Node::LocalSuspend { .. } => true,
-        Node::Elem(_, c) | Node::Suspend(_, c) | Node::Wrap(_, c) => has_raw(c),
-        Node::Tuple(cs) | Node::VecOf(cs) | Node::Seq(_, cs) | Node::ElemN(_, cs) => cs.iter().any(has_raw),
-        Node::Opt(c) => c.as_ref().map(|c| has_raw(c)).unwrap_or(false),
+    is_leptos_node(n)
+        || matches!(n, Node::RawSync(_) | Node::RawAsync(..) | Node::Boundary { .. } | Node::Append(_))
+        || kids(n).into_iter().any(has_raw)
+}
+
+enum Rx {
+    Once(oneshot::Receiver<()>),
+    Shared(futures::future::Shared<oneshot::Receiver<()>>),
+}
+type Rxs = Arc<std::sync::Mutex<BTreeMap<u32, Rx>>>;
+type BoxFut = Pin<Box<dyn Future<Output = ()> + Send + Sync>>;
+
+fn take_rx(rxs: &Rxs, f: u32) -> oneshot::Receiver<()> {
+    match rxs.lock().unwrap().remove(&f) {
+        Some(Rx::Once(rx)) => rx,
+        Some(Rx::Shared(_)) => panic!("future {f} is shared"),
+        None => panic!("future {f} used twice"),
     }
 }
 
-type Rxs = Arc<std::sync::Mutex<BTreeMap<u32, oneshot::Receiver<()>>>>;
+fn shared_rx(rxs: &Rxs, f: u32) -> futures::future::Shared<oneshot::Receiver<()>> {
+    match rxs.lock().unwrap().get(&f) {
+        Some(Rx::Shared(s)) => s.clone(),
+        Some(Rx::Once(_)) => panic!("future {f} is not shared"),
+        None => panic!("future {f} used twice"),
+    }
+}
 
-fn take_rx(rxs: &Rxs, f: u32) -> oneshot::Receiver<()> {
-    rxs.lock()
-        .unwrap()
-        .remove(&f)
-        .unwrap_or_else(|| panic!("future {f} used twice"))
+/// the future of a Suspend body: the receiver itself, or a clone of the shared one
+fn take_fut(rxs: &Rxs, f: u32) -> BoxFut {
+    let mut g = rxs.lock().unwrap();
+    if let Some(Rx::Shared(s)) = g.get(&f) {
+        let s = s.clone();
+        return Box::pin(async move {
+            let _ = s.await;
+        });
+    }
+    match g.remove(&f) {
+        Some(Rx::Once(rx)) => Box::pin(async move {
+            let _ = rx.await;
+        }),
+        _ => panic!("future {f} used twice"),
+    }
+}
+
+thread_local! {
+    /// nonce handed to `push_async_out_of_order_with_nonce` by the Suspense-like boundary (kind 4)
+    static CASE_NONCE: std::cell::RefCell<Option<Arc<str>>> = std::cell::RefCell::new(None);
 }
 
 /// `&'static str` for a label (labels repeat across cases: bounded)
@@ -326,10 +433,10 @@ fn build(n: &Node, rxs: &Rxs) -> AnyView {
             }
         }
         Node::Suspend(f, c) => {
-            let rx = take_rx(rxs, *f);
+            let fut = take_fut(rxs, *f);
             let c = build(c, rxs);
             Suspend::new(async move {
-                let _ = rx.await;
+                fut.await;
                 c
             })
             .into_any()
@@ -339,6 +446,7 @@ fn build(n: &Node, rxs: &Rxs) -> AnyView {
             fallback: build(fallback, rxs),
             content: build(content, rxs),
             some: *some,
+            nonce: CASE_NONCE.with(|n| n.borrow().clone()),
         })
         .into_any(),
         Node::Append(c) => Raw(RawKind::Append(build(c, rxs))).into_any(),
@@ -356,15 +464,108 @@ fn build(n: &Node, rxs: &Rxs) -> AnyView {
             let (c, rxs) = ((**c).clone(), rxs.clone());
             view! { <ErrorBoundary fallback=|_errors| "ERR">{build(&c, &rxs)}</ErrorBoundary> }.into_any()
         }
-        Node::Suspense(fb, c) => {
+        Node::Suspense(fb, c, nofb) => {
             use leptos::prelude::*;
             let (fb, c, rxs, rxs2) = ((**fb).clone(), (**c).clone(), rxs.clone(), rxs.clone());
-            view! { <Suspense fallback=move || build(&fb, &rxs2)>{build(&c, &rxs)}</Suspense> }.into_any()
+            if *nofb {
+                view! { <Suspense>{build(&c, &rxs)}</Suspense> }.into_any()
+            } else {
+                view! { <Suspense fallback=move || build(&fb, &rxs2)>{build(&c, &rxs)}</Suspense> }.into_any()
+            }
         }
-        Node::Transition(fb, c) => {
+        Node::Transition(fb, c, setp) => {
             use leptos::prelude::*;
             let (fb, c, rxs, rxs2) = ((**fb).clone(), (**c).clone(), rxs.clone(), rxs.clone());
-            view! { <Transition fallback=move || build(&fb, &rxs2)>{build(&c, &rxs)}</Transition> }.into_any()
+            if *setp {
+                let pending = RwSignal::new(false);
+                view! {
+                    <Transition fallback=move || build(&fb, &rxs2) set_pending=pending>
+                        {build(&c, &rxs)}
+                    </Transition>
+                }
+                .into_any()
+            } else {
+                view! { <Transition fallback=move || build(&fb, &rxs2)>{build(&c, &rxs)}</Transition> }.into_any()
+            }
+        }
+        Node::Closure(c) => {
+            let (c, rxs) = ((**c).clone(), rxs.clone());
+            (move || build(&c, &rxs)).into_any()
+        }
+        Node::Unsuspend(c) => {
+            let (c, rxs) = ((**c).clone(), rxs.clone());
+            leptos::prelude::Unsuspend::new(move || build(&c, &rxs)).into_any()
+        }
+        Node::ResView(f, text) => {
+            let (fut, text) = (shared_rx(rxs, *f), text.clone());
+            let res = leptos::prelude::Resource::new(
+                || (),
+                move |_| {
+                    let (fut, text) = (fut.clone(), text.clone());
+                    async move {
+                        let _ = fut.await;
+                        text
+                    }
+                },
+            );
+            res.into_any()
+        }
+        Node::Await(f, blocking, c) => {
+            use leptos::prelude::*;
+            let fut = shared_rx(rxs, *f);
+            let (c, rxs, blocking) = ((**c).clone(), rxs.clone(), *blocking);
+            view! {
+                <Await
+                    future=async move {
+                        let _ = fut.await;
+                    }
+                    blocking=blocking
+                    children=move |_: &()| build(&c, &rxs)
+                />
+            }
+            .into_any()
+        }
+        Node::Rich(t, label, c) => {
+            use leptos::prelude::*;
+            use tachys::html::element::{style, textarea};
+            let c = build(c, rxs);
+            match (t, label.is_empty()) {
+                (0, true) => div().child(c).into_any(),
+                (0, false) => div().id(label.clone()).child(c).into_any(),
+                (1, true) => textarea().child(c).into_any(),
+                (1, false) => textarea().id(label.clone()).child(c).into_any(),
+                (2, true) => style().child(c).into_any(),
+                (2, false) => style().id(label.clone()).child(c).into_any(),
+                (_, true) => span().child(c).into_any(),
+                (_, false) => span().id(label.clone()).child(c).into_any(),
+            }
+        }
+        Node::Void(k) => {
+            use tachys::html::element::{br, hr, input};
+            match k {
+                0 => br().into_any(),
+                1 => input().into_any(),
+                _ => hr().into_any(),
+            }
+        }
+        Node::InnerHtml(raw) => {
+            use leptos::prelude::*;
+            div().inner_html(raw.clone()).into_any()
+        }
+        Node::WithAttr(c) => {
+            use tachys::html::attribute::custom::custom_attribute;
+            build(c, rxs).add_any_attr(custom_attribute("data-k", "v")).into_any()
+        }
+        Node::SuspendAttr(f, c) => {
+            use tachys::html::attribute::custom::custom_attribute;
+            let fut = take_fut(rxs, *f);
+            let c = build(c, rxs);
+            Suspend::new(async move {
+                fut.await;
+                span().child(c)
+            })
+            .add_any_attr(custom_attribute("data-j", "v"))
+            .into_any()
         }
         Node::Res(f, c) => {
             use leptos::prelude::*;
@@ -376,7 +577,7 @@ fn build(n: &Node, rxs: &Rxs) -> AnyView {
         }
         Node::LocalSuspend { f, pre, post, content } => {
             use leptos::prelude::*;
-            let rx = take_rx(rxs, *f);
+            let rx = take_fut(rxs, *f);
             let c = build(content, rxs);
             let (pre, post) = (*pre, *post);
             let local = LocalResource::new(|| async { 42 });
@@ -384,7 +585,7 @@ fn build(n: &Node, rxs: &Rxs) -> AnyView {
                 if pre {
                     let _ = local.await;
                 }
-                let _ = rx.await;
+                rx.await;
                 if post {
                     let _ = local.await;
                 }
@@ -402,35 +603,11 @@ thread_local! {
 }
 
 fn res_ids(n: &Node, out: &mut Vec<u32>) {
-    match n {
-        Node::Res(f, c) => {
-            out.push(*f);
-            res_ids(c, out)
-        }
-        Node::LocalSuspend { content, .. } => res_ids(content, out),
-        Node::Text(_) | Node::RawSync(_) | Node::TextRep(..) => {}
-        Node::Elem(_, c)
-        | Node::Suspend(_, c)
-        | Node::Append(c)
-        | Node::RawAsync(_, c)
-        | Node::ErrB(c)
-        | Node::Wrap(_, c) => res_ids(c, out),
-        Node::Tuple(cs) | Node::VecOf(cs) | Node::Seq(_, cs) | Node::ElemN(_, cs) => {
-            cs.iter().for_each(|c| res_ids(c, out))
-        }
-        Node::Boundary { fallback, content, .. } => {
-            res_ids(fallback, out);
-            res_ids(content, out)
-        }
-        Node::Suspense(a, b) | Node::Transition(a, b) => {
-            res_ids(a, out);
-            res_ids(b, out)
-        }
-        Node::Opt(c) => {
-            if let Some(c) = c {
-                res_ids(c, out)
-            }
-        }
+    if let Node::Res(f, _) = n {
+        out.push(*f);
+    }
+    for c in kids(n) {
+        res_ids(c, out)
     }
 }
 
@@ -440,7 +617,11 @@ fn create_resources(tree: &Node, rxs: &Rxs) {
     let mut ids = vec![];
     res_ids(tree, &mut ids);
     for f in ids {
-        let rx = take_rx(rxs, f).shared();
+        let rx = match rxs.lock().unwrap().remove(&f) {
+            Some(Rx::Once(rx)) => rx.shared(),
+            Some(Rx::Shared(s)) => s,
+            None => panic!("future {f} used twice"),
+        };
         let res = leptos::prelude::ArcAsyncDerived::new(move || {
             let rx = rx.clone();
             async move {
@@ -526,7 +707,7 @@ mod exec {
 
 // ------------------------------------------------------------------ views that call the StreamBuilder API directly
 enum RawKind {
-    Boundary { rx: oneshot::Receiver<()>, fallback: AnyView, content: AnyView, some: bool },
+    Boundary { rx: oneshot::Receiver<()>, fallback: AnyView, content: AnyView, some: bool, nonce: Option<Arc<str>> },
     Append(AnyView),
     Sync(String),
     Async(oneshot::Receiver<()>, AnyView),
@@ -626,7 +807,7 @@ impl RenderHtml for Raw {
                 );
                 buf.append(new_buf);
             }
-            RawKind::Boundary { rx, fallback, content, some } => {
+            RawKind::Boundary { rx, fallback, content, some, nonce } => {
                 // leptos/src/suspense_component.rs, SuspenseBoundary::to_html_async_with_buf,
                 // with the task-set/children future replaced by a oneshot
                 buf.next_id();
@@ -667,7 +848,7 @@ impl RenderHtml for Raw {
                                 fut,
                                 position,
                                 mark_branches,
-                                None,
+                                nonce,
                                 extra_attrs,
                             );
                         } else {
@@ -710,20 +891,36 @@ impl RenderHtml for Raw {
 }
 
 // ------------------------------------------------------------------ driving the stream
-struct CountWaker(AtomicUsize);
+/// counts the wake-ups of the stream's task.  With `fresh_wakers` every poll gets a waker of a
+/// new generation and only the newest generation is live (a stale waker wakes nobody).
+struct CountWaker {
+    n: AtomicUsize,
+    gen: usize,
+    live: Arc<AtomicUsize>,
+}
+impl CountWaker {
+    fn simple() -> Arc<Self> {
+        Arc::new(CountWaker { n: AtomicUsize::new(0), gen: 0, live: Arc::new(AtomicUsize::new(0)) })
+    }
+    fn hit(&self) {
+        if self.live.load(Ordering::SeqCst) == self.gen {
+            self.n.fetch_add(1, Ordering::SeqCst);
+        }
+    }
+}
 impl Wake for CountWaker {
     fn wake(self: Arc<Self>) {
-        self.0.fetch_add(1, Ordering::SeqCst);
+        self.hit()
     }
     fn wake_by_ref(self: &Arc<Self>) {
-        self.0.fetch_add(1, Ordering::SeqCst);
+        self.hit()
     }
 }
 
 fn block_on_ready<F: Future>(fut: F) -> Option<F::Output> {
     // the future is expected to be ready without waiting (all oneshots already sent)
     let mut fut = Box::pin(fut);
-    let w = Arc::new(CountWaker(AtomicUsize::new(0)));
+    let w = CountWaker::simple();
     let waker = Waker::from(w);
     let mut cx = Context::from_waker(&waker);
     for _ in 0..POLL_BOUND {
@@ -738,20 +935,36 @@ struct Driver {
     stream: Pin<Box<StreamBuilder>>,
     txs: BTreeMap<u32, oneshot::Sender<()>>,
     count: Arc<CountWaker>,
+    /// wake-ups counted by retired wakers while they were live
+    total: AtomicUsize,
     waker: Waker,
     log: Vec<Sexp>,
     ended: bool,
     /// the view contains leptos components, which spawn tasks
     spawny: bool,
+    /// drive 2: a new waker for every poll, the older ones are dead
+    fresh_wakers: bool,
 }
 
 impl Driver {
+    /// wake-ups of the task so far (all generations of its waker)
+    fn wakes(&self) -> usize {
+        self.total.load(Ordering::SeqCst) + self.count.n.load(Ordering::SeqCst)
+    }
     fn poll(&mut self) -> u8 {
+        if self.fresh_wakers {
+            // retire the current waker: what it counted is kept, from now on it wakes nobody
+            self.total.fetch_add(self.count.n.load(Ordering::SeqCst), Ordering::SeqCst);
+            let gen = self.count.gen + 1;
+            self.count.live.store(gen, Ordering::SeqCst);
+            self.count = Arc::new(CountWaker { n: AtomicUsize::new(0), gen, live: self.count.live.clone() });
+            self.waker = Waker::from(self.count.clone());
+        }
         let mut cx = Context::from_waker(&self.waker);
-        let before = self.count.0.load(Ordering::SeqCst);
+        let before = self.wakes();
         let r = self.stream.as_mut().poll_next(&mut cx);
         exec::settle();
-        let woken = self.count.0.load(Ordering::SeqCst) - before;
+        let woken = self.wakes() - before;
         let r = self.log_poll(r);
         if woken > 0 && self.spawny {
             // with spawned tasks (the leptos components) the task can be woken while it runs.
@@ -780,12 +993,12 @@ impl Driver {
     }
     /// returns the number of wake-ups of the stream's task caused by this completion
     fn complete(&mut self, f: u32) -> usize {
-        let before = self.count.0.load(Ordering::SeqCst);
+        let before = self.wakes();
         if let Some(tx) = self.txs.remove(&f) {
             let _ = tx.send(());
         }
         exec::settle();
-        let w = self.count.0.load(Ordering::SeqCst) - before;
+        let w = self.wakes() - before;
         self.log.push(Lst(vec![Num(3), Num(w as i64)]));
         w
     }
@@ -801,20 +1014,23 @@ impl Driver {
     /// run the task, and again as long as it was woken while (or right after) it ran
     fn pump(&mut self) {
         for _ in 0..POLL_BOUND {
-            let seen = self.count.0.load(Ordering::SeqCst);
+            let seen = self.wakes();
             self.run_task();
-            if self.ended || !self.spawny || self.count.0.load(Ordering::SeqCst) == seen {
+            if self.ended || !self.spawny || self.wakes() == seen {
                 return;
             }
         }
     }
 }
 
-fn channels(futs: &[u32]) -> (Rxs, BTreeMap<u32, oneshot::Sender<()>>) {
+fn channels(tree: &Node, futs: &[u32]) -> (Rxs, BTreeMap<u32, oneshot::Sender<()>>) {
+    let mut shared = vec![];
+    shared_futures(tree, false, &mut shared);
     let mut rxs = BTreeMap::new();
     let mut txs = BTreeMap::new();
     for f in futs {
         let (tx, rx) = oneshot::channel::<()>();
+        let rx = if shared.contains(f) { Rx::Shared(rx.shared()) } else { Rx::Once(rx) };
         if rxs.insert(*f, rx).is_some() {
             panic!("future {f} used twice");
         }
@@ -823,11 +1039,37 @@ fn channels(futs: &[u32]) -> (Rxs, BTreeMap<u32, oneshot::Sender<()>>) {
     (Arc::new(std::sync::Mutex::new(rxs)), txs)
 }
 
+/// the stream of a view through the entry point selected by `mode` (bit 0 out-of-order, bit 1 branching)
+fn stream_of(view: AnyView, mode: i64) -> StreamBuilder {
+    match mode & 3 {
+        0 => view.to_html_stream_in_order(),
+        1 => view.to_html_stream_out_of_order(),
+        2 => view.to_html_stream_in_order_branching(),
+        _ => view.to_html_stream_out_of_order_branching(),
+    }
+}
+
+/// mode bit 2: provide a nonce (under the current owner); returns the log entry (12 bytes)
+fn setup_nonce(mode: i64, tree: &Node) -> Option<Sexp> {
+    CASE_NONCE.with(|n| *n.borrow_mut() = None);
+    if mode & 4 == 0 {
+        return None;
+    }
+    let nonce: String = if has_leptos(tree) {
+        leptos::nonce::provide_nonce();
+        leptos::nonce::use_nonce().expect("nonce").to_string()
+    } else {
+        "n0nce-K4".to_string()
+    };
+    CASE_NONCE.with(|n| *n.borrow_mut() = Some(Arc::from(nonce.as_str())));
+    Some(Lst(vec![Num(12), Sexp::from_str(&nonce)]))
+}
+
 fn reference(tree: &Node, futs: &[u32]) -> (Sexp, Sexp) {
     // ref: everything complete before rendering, in-order stream
     let owner = new_owner();
     let r1 = owner.with(|| {
-        let (rxs, txs) = channels(futs);
+        let (rxs, txs) = channels(tree, futs);
         for (_, tx) in txs {
             let _ = tx.send(());
         }
@@ -835,7 +1077,7 @@ fn reference(tree: &Node, futs: &[u32]) -> (Sexp, Sexp) {
         exec::settle();
         let view = build(tree, &rxs);
         let mut stream = Box::pin(view.to_html_stream_in_order());
-        let w = Arc::new(CountWaker(AtomicUsize::new(0)));
+        let w = CountWaker::simple();
         let waker = Waker::from(w);
         let mut cx = Context::from_waker(&waker);
         let mut out = String::new();
@@ -860,7 +1102,7 @@ fn reference(tree: &Node, futs: &[u32]) -> (Sexp, Sexp) {
     } else {
         let owner = new_owner();
         owner.with(|| {
-            let (rxs, txs) = channels(futs);
+            let (rxs, txs) = channels(tree, futs);
             for (_, tx) in txs {
                 let _ = tx.send(());
             }
@@ -882,7 +1124,7 @@ fn reference(tree: &Node, futs: &[u32]) -> (Sexp, Sexp) {
 /// schedule: complete what is left, then alternate tick and poll until the stream ends.
 /// log: polls as in opcode 0, (3 0) completion, (5) tick, (6) create, (7) render
 fn run_ticks(c: &Sexp) -> Sexp {
-    let ooo = c.at(1).num() != 0;
+    let mode = c.at(1).num();
     let tree = parse(c.at(3));
     let sched: Vec<(i64, u32)> = c
         .at(5)
@@ -900,13 +1142,14 @@ fn run_ticks(c: &Sexp) -> Sexp {
 
     let owner = new_owner();
     let log = owner.with(|| {
-        let (rxs, mut txs) = channels(&futs);
-        let count = Arc::new(CountWaker(AtomicUsize::new(0)));
+        let (rxs, mut txs) = channels(&tree, &futs);
+        let count = CountWaker::simple();
         let waker = Waker::from(count.clone());
         let mut stream: Option<Pin<Box<StreamBuilder>>> = None;
         let mut created = false;
         let mut ended = false;
         let mut log: Vec<Sexp> = vec![];
+        log.extend(setup_nonce(mode, &tree));
         let mut step = |k: i64, f: u32, log: &mut Vec<Sexp>, ended: &mut bool| {
             if (k == 4 || k == 1) && !created {
                 create_resources(&tree, &rxs);
@@ -915,11 +1158,7 @@ fn run_ticks(c: &Sexp) -> Sexp {
             }
             if k == 1 && stream.is_none() {
                 let view = build(&tree, &rxs);
-                stream = Some(Box::pin(if ooo {
-                    view.to_html_stream_out_of_order()
-                } else {
-                    view.to_html_stream_in_order()
-                }));
+                stream = Some(Box::pin(stream_of(view, mode)));
                 log.push(Lst(vec![Num(7)]));
             }
             match k {
@@ -954,11 +1193,7 @@ fn run_ticks(c: &Sexp) -> Sexp {
                 _ => {
                     if stream.is_none() {
                         let view = build(&tree, &rxs);
-                        stream = Some(Box::pin(if ooo {
-                            view.to_html_stream_out_of_order()
-                        } else {
-                            view.to_html_stream_in_order()
-                        }));
+                        stream = Some(Box::pin(stream_of(view, mode)));
                         log.push(Lst(vec![Num(7)]));
                     }
                 }
@@ -1003,7 +1238,7 @@ fn run(c: &Sexp) -> Sexp {
     if c.at(0).num() != 0 {
         return Lst(vec![]);
     }
-    let ooo = c.at(1).num() != 0;
+    let mode = c.at(1).num();
     let drive = c.at(2).num();
     let tree = parse(c.at(3));
     let init: Vec<u32> = c.at(4).nums().into_iter().map(|x| x as u32).collect();
@@ -1023,32 +1258,31 @@ fn run(c: &Sexp) -> Sexp {
 
     let owner = new_owner();
     let log = owner.with(|| {
-        let (rxs, mut txs) = channels(&futs);
+        let (rxs, mut txs) = channels(&tree, &futs);
         for f in &init {
             if let Some(tx) = txs.remove(f) {
                 let _ = tx.send(());
             }
         }
+        let nonce_entry = setup_nonce(mode, &tree);
         create_resources(&tree, &rxs);
         exec::settle();
         let view = build(&tree, &rxs);
-        let stream = if ooo {
-            view.to_html_stream_out_of_order()
-        } else {
-            view.to_html_stream_in_order()
-        };
+        let stream = stream_of(view, mode);
         exec::settle();
-        let count = Arc::new(CountWaker(AtomicUsize::new(0)));
+        let count = Arc::new(CountWaker { n: AtomicUsize::new(0), gen: 0, live: Arc::new(AtomicUsize::new(0)) });
         let mut d = Driver {
             stream: Box::pin(stream),
             txs,
             waker: Waker::from(count.clone()),
             count,
-            log: vec![],
+            total: AtomicUsize::new(0),
+            log: nonce_entry.into_iter().collect(),
             ended: false,
             spawny: has_leptos(&tree),
+            fresh_wakers: drive == 2,
         };
-        if drive == 0 {
+        if drive != 1 && drive != 2 {
             for (k, f) in &sched {
                 match k {
                     0 => {
